@@ -171,17 +171,27 @@ type Hub struct {
 	Height int64
 	Time   int64
 
-	inBlock  bool
-	cms      sdk.CacheMultiStore
-	ctx      sdk.Context
-	txCount  uint64
-	pending  []func(*SimStaking)
-	Events   []sdk.Event // ABCI events of the current block (blockers + successful txs)
-	Watchdog time.Duration
+	inBlock     bool
+	speculating bool
+	cms         sdk.CacheMultiStore
+	ctx         sdk.Context
+	txCount     uint64
+	pending     []func(*SimStaking)
+	Events      []sdk.Event // ABCI events of the current block (blockers + successful txs)
+	Watchdog    time.Duration
 	// NoBlockCache runs blocks directly on the root store (no cache wrapping);
 	// only for experiments, a node always cache-wraps.
 	NoBlockCache bool
+	// Spec: what this process instance does besides executing the blocks - nothing a correct state machine could notice.
+	//   bit 0: speculative execution, as a node does for gas simulation and x/gov does when a proposal is submitted: every
+	//          transaction is first run on a cache context that is thrown away, and at each block start a token-list change
+	//          proposal is run by the module's proposal handler on a cache context that is thrown away
+	//   bit 1: the node is restarted every third block: all keepers and message servers are built anew over the same stores
+	Spec int
 }
+
+// DefaultSpec is the Spec value given to hubs built from now on.
+var DefaultSpec int
 
 var StoreNames = []string{mtypes.StoreKey, otypes.StoreKey, authtypes.StoreKey, banktypes.StoreKey, paramstypes.StoreKey}
 
@@ -256,7 +266,6 @@ func NewBareHub(cfg Config) *Hub {
 	cfg.fill()
 	h := &Hub{Cfg: cfg, keys: map[string]*sdk.KVStoreKey{}}
 	h.Cdc = MakeCodec()
-	amino := codec.NewLegacyAmino()
 
 	db := dbm.NewMemDB()
 	ms := store.NewCommitMultiStore(db)
@@ -271,6 +280,21 @@ func NewBareHub(cfg Config) *Hub {
 	}
 	h.ms = ms
 
+	h.Spec = DefaultSpec
+	h.Staking = &SimStaking{}
+	for i, v := range cfg.Vals {
+		h.Staking.Vals = append(h.Staking.Vals, &SimVal{Oper: ValAddr(i), Power: v.Power, Bonded: v.Bonded})
+	}
+	h.wire()
+
+	h.Height = 0
+	h.Time = 1600000000
+	return h
+}
+
+// wire builds the keepers and message servers over the hub's stores (at start, and again for a simulated restart).
+func (h *Hub) wire() {
+	amino := codec.NewLegacyAmino()
 	pk := paramskeeper.NewKeeper(h.Cdc, amino, h.keys[paramstypes.StoreKey], h.tkey)
 	maccPerms := map[string][]string{
 		mtypes.ModuleName: {authtypes.Minter, authtypes.Burner},
@@ -279,21 +303,12 @@ func NewBareHub(cfg Config) *Hub {
 	blocked := map[string]bool{authtypes.NewModuleAddress(mtypes.ModuleName).String(): true}
 	h.Bank = bankkeeper.NewBaseKeeper(h.Cdc, h.keys[banktypes.StoreKey], h.Acc, pk.Subspace(banktypes.ModuleName), blocked)
 
-	h.Staking = &SimStaking{}
-	for i, v := range cfg.Vals {
-		h.Staking.Vals = append(h.Staking.Vals, &SimVal{Oper: ValAddr(i), Power: v.Power, Bonded: v.Bonded})
-	}
-
 	ok := okeeper.NewKeeper(h.Cdc, h.keys[otypes.StoreKey], pk.Subspace(otypes.ModuleName), h.Staking)
 	mk := mkeeper.NewKeeper(h.Cdc, h.keys[mtypes.StoreKey], pk.Subspace(mtypes.ModuleName), h.Acc, h.Bank, nil, ok, sdk.DefaultPowerReduction)
 	h.K = mk.SetStakingKeeper(h.Staking)
 	h.O = ok.SetMhub2Keeper(h.K)
 	h.Msg = mkeeper.NewMsgServerImpl(h.K)
 	h.OMsg = okeeper.NewMsgServerImpl(h.O)
-
-	h.Height = 0
-	h.Time = 1600000000
-	return h
 }
 
 // GenesisCtx is a context writing straight to the root store (genesis time).
@@ -477,6 +492,12 @@ func (h *Hub) Begin(height, unix int64) error {
 	}
 	h.inBlock = true
 	h.Events = nil
+	if h.Spec&2 != 0 && height%3 == 0 {
+		h.wire()
+	}
+	if h.Spec&1 != 0 {
+		h.speculateProposal()
+	}
 	em := sdk.NewEventManager()
 	err := h.guarded("BeginBlocker(mhub2)", func() { mhub2.BeginBlocker(h.ctx.WithEventManager(em), h.K) })
 	h.Events = append(h.Events, em.Events()...)
@@ -571,6 +592,15 @@ func (h *Hub) DeliverTx(msgs []sdk.Msg) []TxResult {
 			_ = i
 			return out
 		}
+	}
+	if h.Spec&1 != 0 && !h.speculating {
+		// a dry run of the same transaction on a context that is thrown away
+		h.speculating = true
+		saveCtx, saveEvents, saveCount := h.ctx, h.Events, h.txCount
+		h.ctx, _ = h.ctx.CacheContext()
+		h.DeliverTx(msgs)
+		h.ctx, h.Events, h.txCount = saveCtx, saveEvents, saveCount
+		h.speculating = false
 	}
 	h.txCount++
 	txBytes := []byte(fmt.Sprintf("verif-tx-%d", h.txCount))
@@ -742,4 +772,22 @@ func (h *Hub) Denoms() []string {
 	}
 	sort.Strings(out)
 	return out
+}
+
+// speculateProposal runs, on a cache context that is thrown away, what x/gov runs when a TokenInfosChangeProposal is
+// submitted: the module's proposal handler with a token list that differs from the stored one (other commissions).
+func (h *Hub) speculateProposal() {
+	defer func() { recover() }()
+	cctx, _ := h.ctx.CacheContext()
+	infos := h.K.GetTokenInfos(cctx)
+	if infos == nil {
+		return
+	}
+	cp := &mtypes.TokenInfos{}
+	for _, ti := range infos.TokenInfos {
+		c := *ti
+		c.Commission = c.Commission.Add(sdk.NewDecWithPrec(3, 2))
+		cp.TokenInfos = append(cp.TokenInfos, &c)
+	}
+	_ = mhub2.NewProposalsHandler(h.K)(cctx.WithEventManager(sdk.NewEventManager()), &mtypes.TokenInfosChangeProposal{NewInfos: cp})
 }
